@@ -75,8 +75,8 @@ def run(ctx):
     fkc = "BlsSignatureCore::core_aggregate_verify"
     c = ctx.need_fn("E4.loop", fkc)
     if c is not None:
-        for h, ok, detail in F.loops_push_every_iteration(c):
-            ctx.ob("E4.loop", fkc + "/every-entry", ok, "every iteration of the pair loop pushes a pairing input or leaves through Err: " + detail, where=where(c, h))
+        for h, ok, detail in F.loops_push_every_iteration(c, accept=lambda s: s.callee[0] == "Vec::<T, A>::push" and any(x.op == "call" and B.cname(x) == "HashToPoint::hash_to_point" for x in subterms(s.args[1]))):
+            ctx.ob("E4.loop", fkc + "/every-entry", ok, "every iteration of the pair loop pushes its own (hash_to_point(msg,dst), pk) pairing input or leaves through Err: " + detail, where=where(c, h))
         F.check_no_dropping_adapters(ctx, "E7.adapters", P, [fkc])
         ev = evaluate(c)
         srcs = R.loop_sources(c)
